@@ -22,3 +22,193 @@ Lemma real_tables_w_ok : forallb table_w_ok real_tables = true.
 Proof. vm_compute. reflexivity. Qed.
 Lemma real_tables_nonempty : forallb (fun t => negb (N.of_nat (length t) =? 0)) real_tables = true.
 Proof. vm_compute. reflexivity. Qed.
+
+(* ---------------------------------------------------------------- list / buffer helpers *)
+Lemma set_nth_some {A} : forall (l : list A) i x, (i < length l)%nat ->
+  exists l', set_nth l i x = Some l' /\ length l' = length l /\
+    (forall j d, nth j l' d = if Nat.eqb j i then x else nth j l d).
+Proof.
+  induction l as [|h t IH]; intros i x Hi; cbn [length] in Hi; [lia|].
+  destruct i as [|i].
+  - exists (x :: t). cbn [set_nth]. repeat split. intros [|j] d; reflexivity.
+  - destruct (IH i x) as (t' & E & L & Hn); [lia|].
+    exists (h :: t'). cbn [set_nth]. rewrite E. repeat split; [cbn [length]; lia|].
+    intros [|j] d; [reflexivity|]. cbn [nth Nat.eqb]. apply Hn.
+Qed.
+
+Lemma set_nth_inv {A} : forall (l : list A) i x l', set_nth l i x = Some l' ->
+  (i < length l)%nat /\ length l' = length l /\
+  (forall j d, nth j l' d = if Nat.eqb j i then x else nth j l d).
+Proof.
+  induction l as [|h t IH]; intros i x l' H; [destruct i; discriminate|].
+  destruct i as [|i]; cbn [set_nth] in H.
+  - inversion H; subst. cbn [length]. repeat split; [lia|]. intros [|j] d; reflexivity.
+  - destruct (set_nth t i x) as [t'|] eqn:E; [|discriminate]. inversion H; subst.
+    destruct (IH _ _ _ E) as (Hi & L & Hn). cbn [length]. repeat split; [lia|lia|].
+    intros [|j] d; [reflexivity|]. cbn [nth Nat.eqb]. apply Hn.
+Qed.
+
+Lemma buf_write_some : forall data b off, (off + length data <= length b)%nat ->
+  exists b', buf_write b off data = Some b' /\ length b' = length b /\
+    (forall j d, (j < off)%nat -> nth j b' d = nth j b d).
+Proof.
+  induction data as [|x data IH]; intros b off H; cbn [buf_write].
+  - exists b. repeat split.
+  - cbn [length] in H. destruct (set_nth_some b off x) as (b1 & E & L & Hn); [lia|].
+    rewrite E. destruct (IH b1 (S off)) as (b2 & E2 & L2 & Hn2); [lia|].
+    exists b2. repeat split; [exact E2|lia|].
+    intros j d Hj. rewrite Hn2 by lia. rewrite Hn.
+    destruct (Nat.eqb_spec j off); [lia|reflexivity].
+Qed.
+
+Lemma buf_write_inv : forall data b off b', buf_write b off data = Some b' ->
+  length b' = length b /\ (forall j d, (j < off)%nat -> nth j b' d = nth j b d).
+Proof.
+  induction data as [|x data IH]; intros b off b' H; cbn [buf_write] in H.
+  - inversion H; subst. split; reflexivity.
+  - destruct (set_nth b off x) as [b1|] eqn:E; [|discriminate].
+    destruct (set_nth_inv _ _ _ _ E) as (_ & L & Hn).
+    destruct (IH _ _ _ H) as (L2 & Hn2). split; [lia|].
+    intros j d Hj. rewrite Hn2 by lia. rewrite Hn. destruct (Nat.eqb_spec j off); [lia|reflexivity].
+Qed.
+
+Lemma c_strlen_spec : forall b n, c_strlen b = Some n ->
+  (n < length b)%nat /\ nth n b 0 = 0 /\ forall i, (i < n)%nat -> nth i b 0 <> 0.
+Proof.
+  induction b as [|c b IH]; intros n H; cbn [c_strlen] in H; [discriminate|].
+  destruct (N.eqb_spec c 0) as [->|Hc].
+  - inversion H; subst. cbn [length nth]. repeat split; [lia|]. intros; lia.
+  - destruct (c_strlen b) as [m|] eqn:E; [|discriminate]. inversion H; subst.
+    destruct (IH m eq_refl) as (A & B & C). cbn [length nth]. repeat split; [lia|exact B|].
+    intros [|i] Hi; [exact Hc|]. apply C. lia.
+Qed.
+
+Lemma c_strlen_exists : forall b i, (i < length b)%nat -> nth i b 0 = 0 ->
+  exists n, c_strlen b = Some n /\ (n <= i)%nat.
+Proof.
+  induction b as [|c b IH]; intros i Hi Hz; cbn [length] in Hi; [lia|].
+  cbn [c_strlen]. destruct (N.eqb_spec c 0) as [->|Hc].
+  - exists O. split; [reflexivity|lia].
+  - destruct i as [|i]; [cbn [nth] in Hz; congruence|].
+    cbn [nth] in Hz. destruct (IH i) as (n & E & Hn); [lia|exact Hz|].
+    rewrite E. exists (S n). split; [reflexivity|lia].
+Qed.
+
+Lemma count_base_le : forall a b, count_base a b <= N.of_nat (length a).
+Proof.
+  induction a as [|x a IH]; intros b; cbn [count_base length]; [lia|].
+  destruct b as [|y b]; [lia|]. destruct (x =? y); [|lia]. specialize (IH b). lia.
+Qed.
+
+Lemma nth_nonzero_lt : forall (k : bytes) i, nth i k 0 <> 0 -> (i < length k)%nat.
+Proof.
+  intros k i H. destruct (Nat.lt_ge_cases i (length k)) as [|Hge]; [assumption|].
+  rewrite nth_overflow in H by exact Hge. congruence.
+Qed.
+
+Lemma kat_some k i : i < 16 -> kat k i = Some (nth (N.to_nat i) k 0).
+Proof. intros H. unfold kat. rewrite max_key_val. destruct (N.ltb_spec i 16); [reflexivity|lia]. Qed.
+
+Lemma kat_inv k i c : kat k i = Some c -> i < 16 /\ c = nth (N.to_nat i) k 0.
+Proof. unfold kat. rewrite max_key_val. destruct (N.ltb_spec i 16) as [Hlt|Hge]; [|discriminate]. intros E; inversion E; auto. Qed.
+
+Lemma nth_error_skipn {A} : forall c (l : list A) j, nth_error (skipn c l) j = nth_error l (c + j).
+Proof.
+  induction c as [|c IH]; intros l j; [reflexivity|].
+  destruct l as [|h t]; [destruct j; reflexivity|]. cbn [skipn Nat.add nth_error]. apply IH.
+Qed.
+
+Lemma key_ok_len k : key_ok k = true -> (length k <= 15)%nat.
+Proof. unfold key_ok. rewrite andb_true_iff, max_key_val. intros [H _]. apply N.ltb_lt in H. lia. Qed.
+
+Definition keys_ok (tl : ktable) : Prop := Forall (fun ik => key_ok (snd ik) = true) tl.
+
+Lemma table_ok_keys tbl : table_ok tbl = true -> keys_ok tbl.
+Proof.
+  unfold table_ok, keys_ok. rewrite forallb_forall, Forall_forall. intros H x Hx.
+  specialize (H x Hx). apply andb_true_iff in H. tauto.
+Qed.
+
+Lemma table_ok_idx tbl : table_ok tbl = true ->
+  forall p idx k, nth_error tbl p = Some (idx, k) -> (N.to_nat idx < length tbl)%nat /\ key_ok k = true.
+Proof.
+  unfold table_ok. rewrite forallb_forall. intros H p idx k E.
+  apply nth_error_In in E. specialize (H _ E). cbn [fst snd] in H.
+  apply andb_true_iff in H. destruct H as [H1 H2]. apply N.ltb_lt in H1. split; [lia|exact H2].
+Qed.
+
+Lemma keys_ok_skipn c tl : keys_ok tl -> keys_ok (skipn c tl).
+Proof.
+  unfold keys_ok. rewrite !Forall_forall. intros H x Hx. apply H.
+  rewrite <- (firstn_skipn c tl). apply in_or_app. right. exact Hx.
+Qed.
+
+(* ---------------------------------------------------------------- find_key_match *)
+Definition is_term (k : bytes) (base : N) : Prop :=
+  exists c0, kat k base = Some c0 /\
+    ((c0 = 0 \/ c0 = ch_star) \/ (c0 = ch_colon /\ kat k (base + 1) = Some ch_colon) \/
+     (c0 = ch_lbr /\ kat k (base + 1) = Some ch_rbr)).
+
+Lemma find_key_spec : forall tl p cs, keys_ok tl -> (length cs <= 15)%nat ->
+  find_key tl p cs <> FkFault /\
+  forall pos base, find_key tl p cs = FkSome pos base ->
+    (p <= pos)%nat /\ base = N.of_nat (length cs) /\ base <> 0 /\
+    exists idx k, nth_error tl (pos - p) = Some (idx, k) /\ is_term k base /\
+                  base = count_base cs (pad_key k).
+Proof.
+  induction tl as [|[idx k] tl IH]; intros p cs Hk Hcs; cbn [find_key].
+  - split; [discriminate|]. intros; discriminate.
+  - inversion Hk as [|? ? Hk1 Hk2]; subst. cbn [snd] in Hk1.
+    pose proof (count_base_le cs (pad_key k)) as Hb.
+    set (base := count_base cs (pad_key k)) in *.
+    destruct (N.ltb_spec base (N.of_nat (length cs))) as [Hlt|Hge].
+    { destruct (IH (S p) cs Hk2 Hcs) as [A B]. split; [exact A|].
+      intros pos b H. destruct (B _ _ H) as (P1 & P2 & P3 & i & k' & E & T).
+      repeat split; [lia|exact P2|exact P3|]. exists i, k'. split; [|exact T].
+      replace (pos - p)%nat with (S (pos - S p)) by lia. exact E. }
+    assert (Hbase : base = N.of_nat (length cs)) by lia.
+    assert (Hb16 : base < 16) by lia.
+    rewrite (kat_some k base Hb16).
+    set (c0 := nth (N.to_nat base) k 0).
+    assert (Hfound : fk_found p base <> FkFault /\
+                     forall pos b, fk_found p base = FkSome pos b -> pos = p /\ b = base /\ base <> 0).
+    { unfold fk_found. destruct (N.eqb_spec base 0); split; try discriminate; intros pos b H; inversion H; auto. }
+    assert (Hnext : c0 <> 0 -> base + 1 < 16).
+    { intros Hc. apply nth_nonzero_lt in Hc. apply key_ok_len in Hk1. lia. }
+    assert (Hdone : forall (T : is_term k base),
+              fk_found p base <> FkFault /\
+              (forall pos b, fk_found p base = FkSome pos b ->
+                 (p <= pos)%nat /\ b = N.of_nat (length cs) /\ b <> 0 /\
+                 exists idx0 k0, nth_error ((idx, k) :: tl) (pos - p) = Some (idx0, k0) /\ is_term k0 b /\
+                                 b = count_base cs (pad_key k0))).
+    { intros T. destruct Hfound as [F1 F2]. split; [exact F1|].
+      intros pos b H. destruct (F2 _ _ H) as (-> & -> & Hnz).
+      repeat split; [lia|exact Hbase|exact Hnz|]. exists idx, k.
+      rewrite Nat.sub_diag. repeat split. exact T. }
+    destruct ((c0 =? 0) || (c0 =? ch_star)) eqn:E1.
+    { apply Hdone. exists c0. split; [apply kat_some; exact Hb16|]. left.
+      apply orb_true_iff in E1. destruct E1 as [E|E]; apply N.eqb_eq in E; auto. }
+    apply orb_false_iff in E1. destruct E1 as [E10 E1s]. apply N.eqb_neq in E10.
+    destruct (N.eqb_spec c0 ch_colon) as [Ec|Ec].
+    { rewrite (kat_some k (base + 1) (Hnext E10)).
+      destruct (N.eqb_spec (nth (N.to_nat (base + 1)) k 0) ch_colon) as [E2|E2].
+      - apply Hdone. exists c0. split; [apply kat_some; exact Hb16|]. right. left.
+        split; [exact Ec|]. rewrite (kat_some k (base + 1) (Hnext E10)). rewrite E2. reflexivity.
+      - split; [discriminate|intros; discriminate]. }
+    destruct (N.eqb_spec c0 ch_lbr) as [El|El].
+    { rewrite (kat_some k (base + 1) (Hnext E10)).
+      destruct (N.eqb_spec (nth (N.to_nat (base + 1)) k 0) ch_rbr) as [E2|E2].
+      - apply Hdone. exists c0. split; [apply kat_some; exact Hb16|]. right. right.
+        split; [exact El|]. rewrite (kat_some k (base + 1) (Hnext E10)). rewrite E2. reflexivity.
+      - split; [discriminate|intros; discriminate]. }
+    split; [discriminate|intros; discriminate].
+Qed.
+
+(* a separator "::" / "[]" at base leaves room for two more characters *)
+Lemma sep_room k base c : key_ok k = true -> c <> 0 ->
+  kat k base = Some c -> kat k (base + 1) = Some c -> base + 2 <= 15.
+Proof.
+  intros Hk Hc H0 H1. apply kat_inv in H1. destruct H1 as [H16 H1].
+  assert (nth (N.to_nat (base + 1)) k 0 <> 0) by congruence.
+  apply nth_nonzero_lt in H. apply key_ok_len in Hk. lia.
+Qed.
